@@ -154,6 +154,26 @@ def main():
                             rec.update(ok=False, got=got_all, expected=exp_all, setup=var['setup'])
                         if not rec['ok']:
                             break
+                    if rec['ok'] and kind == 'quant' and not info.get('ticking') and k == 0 and modal:
+                        # constant domain: with one constant at the node's own world and another only at a DIFFERENT world,
+                        # the per-constant rule instantiates with both
+                        from pytableaux.proof import sdwnode
+                        cb_ = Constant(1, 0)
+                        Gp = Predicate(3, 0, 1)
+                        ctx2 = pr.Ctx(A2, B2, None, x)          # plain body F x: instances are not principal nodes themselves
+                        s2 = pr.principal(info, ctx2)[0]
+                        extra = [sdwnode(Predicated(Gp, (cb_,)), info['designation'], 1),
+                                 sdwnode(Predicated(Gp, (ctx2.ca,)), info['designation'], 0)]
+                        cv = [v for v in info['variants'] if v['setup'] == 'consts']
+                        if cv and cv[0]['applied'] and 'adds' in cv[0]['applied'][0]:
+                            sch = cv[0]['applied'][0]
+                            applied, env = pr.apply_rule(logic, info, ctx2, 'empty', s2, extra)
+                            def expect(c_):
+                                return json.dumps([[['s', str(inst(n['s'], ctx2, None, c_)), n['d'], env['w']] for n in g] for g in sch['adds']])
+                            exp_set = sorted(expect(c_) for c_ in (ctx2.ca, cb_))
+                            got_set = sorted(json.dumps([[canon_node(n) for n in g] for g in a['raw']]) for a in applied if 'raw' in a)
+                            if exp_set != got_set:
+                                rec.update(ok=False, got=got_set, expected=exp_set, setup='constants at two worlds')
                 except Exception as e:
                     rec.update(ok=False, got=f'{type(e).__name__}: {e}', expected='schema instance')
                 out.append(rec)
